@@ -339,6 +339,32 @@ def check_C16(lines, obs):
     return None
 
 
+def check_C17(lines, obs):
+    """after every compute: the results equal those of a freshly built stock with the same inputs"""
+    prev = None
+    for ln, ob in zip(lines, obs):
+        if ln == "h_compute":
+            prev = (ln, ob)
+        elif ln.startswith("note fresh ") and prev is not None:
+            want = "ok " + ln[len("note fresh "):]
+            got = prev[1]
+            if got == "err":
+                return fail(prev[0], "compute() succeeds and equals a fresh object", want[:200], "err")
+            tw, tg = want.split(" "), got.split(" ")
+            if len(tw) != len(tg):
+                return fail(prev[0], "results of a recompute equal those of a freshly built stock", want[:200], got[:200])
+            vals = [pnum(x) for x in tw if x not in ("ok", "S", "I", "O", "SC", "OC", "|")]
+            scale = max([abs(v) for v in vals] + [1])
+            for a, b in zip(tw, tg):
+                if a == b:
+                    continue
+                if not close(pnum(a), pnum(b), scale):
+                    return fail(prev[0], "results of a recompute equal those of a freshly built stock with the same parameters and driver",
+                                want[:300], got[:300])
+            prev = None
+    return None
+
+
 def _guard(fn):
     def run(lines, obs):
         try:
@@ -353,4 +379,4 @@ def _guard(fn):
 
 
 CHECKS = {k: _guard(v) for k, v in {"C03": check_C03, "C08": check_C08, "C09": check_C09,
-                                    "C10": check_C10, "C16": check_C16}.items()}
+                                    "C10": check_C10, "C16": check_C16, "C17": check_C17}.items()}
